@@ -48,7 +48,7 @@ def oneway_guard_edges(body, cfg, du):
 
 def run(cx):
     cx.rule("C04.R1", "oneway guard dominates every protocol write: each Write::* on Call.writer is reachable only through the false edge of an is_oneway() test whose true edge returns without writing; is_oneway() reads exactly Request.oneway == Some(true)")
-    cx.rule("C04.R2", "client oneway path: MethodCall::oneway only sends; in send() the reader is taken only on the non-oneway edge, Request.oneway=Some(true) is set before serialisation, and the writer is handed back to the connection")
+    cx.rule("C04.R2", "client entry points, each analysed with send() inlined and the constants it is given propagated: call/more/oneway/upgrade serialise exactly (None,None,None)/(more)/(oneway)/(upgrade); only oneway() leaves the connection's reader in place, reads nothing and hands the writer straight back; the others move reader and writer into the call object; Request::create leaves the flags unset")
     r1(cx)
     r1_flag(cx, only=("is_oneway",))
     r1_ctor(cx)
@@ -207,64 +207,7 @@ def r1_request_stable(cx):
 
 
 def r2(cx):
-    send = cx.mir.one("varlink", "MethodCall::<MRequestParameters, MReply, MError>::send")
-    oneway = cx.mir.one("varlink", "MethodCall::<MRequestParameters, MReply, MError>::oneway")
-    cx.saw(send); cx.saw(oneway)
-    # (a) oneway(): only send(self, true, false, false)
-    calls = [t for t in oneway.calls() if not t.callee.indirect]
-    sends = [t for t in calls if t.callee.name == "send"]
-    others = [t for t in calls if t.callee.name in ("recv", "read_until", "read_line", "read_to_end", "call", "more", "upgrade", "fill_buf") or (t.callee.name == "read" and "io::" in t.callee.resolved)]
-    flags = [a.cint() if a.is_const else None for a in sends[0].args[1:]] if sends else None
-    cx.check(len(sends) == 1 and not others and flags == [1, 0, 0], "C04.R2", "varlink:MethodCall::oneway:send-only", oneway.sp,
-             "oneway() must call send(true,false,false) and nothing that reads (send calls: %d, flags: %s, reading calls: %s)" % (len(sends), flags, [str(t.callee) for t in others]),
-             note_ok="send(oneway=true, more=false, upgrade=false), no read")
-    cfg = Cfg(send); du = DefUse(send)
-    ow_switches = []
-    for b in send.blocks:
-        if b.cleanup or b.term.kind != "switch": continue
-        c = switch_cond(send, du, b.term)
-        if c.kind == "arg" and c.arg == 2: ow_switches.append((b.term, c))
-    if not ow_switches: raise AnchorMissing("send(): no branch on the oneway parameter")
-    true_edges = {bool_edges(t, c)[0] for t, c in ow_switches}
-    false_edges = {bool_edges(t, c)[1] for t, c in ow_switches}
-    # (b) conn.reader is moved out only on the non-oneway edge; no read at all
-    takes = []
-    for t in send.calls("=take"):
-        ds = du.defs.get(t.args[0].place.l, [])
-        if len(ds) == 1 and ds[0][0] == "stmt" and ds[0][1].rplace is not None and "reader" in ds[0][1].rplace.fields() \
-           and "Connection" in send.ty(ds[0][1].rplace.l):
-            takes.append(t)
-    rd = [t for t in send.calls() if not t.callee.indirect and t.callee.name in ("read_until", "read", "read_line", "fill_buf", "recv", "read_exact", "read_to_end")
-          and ("io::" in t.callee.resolved or "BufRead" in (t.callee.trait or "") or t.callee.name == "recv")]
-    good = bool(takes) and all(t.bb not in cfg.reach(0, blocked_edges=false_edges) for t in takes) and not rd
-    cx.check(good, "C04.R2", "varlink:MethodCall::send:reader-not-taken-when-oneway", send.sp,
-             "on the oneway path the connection's reader is taken (or read): a later call would find the connection busy or consume a foreign reply",
-             note_ok="conn.reader.take() only behind oneway==false; send() never reads")
-    # (c) req.oneway = Some(true) on the oneway edge, before serialisation
-    sets = [s for s in send.stmts() if s.kind == "assign" and "oneway" in s.lhs.fields() and "Request" in send.ty(s.lhs.l)]
-    ser = send.calls("serde_json::to_string")
-    okc = False; why = "no assignment to Request.oneway"
-    if len(sets) == 1 and ser:
-        s = sets[0]
-        sl = Slice(send, du)
-        vals = [o.cint() for k, o in sl.origins(s.ops[0]) if k == "const"]
-        dom = s.bb not in cfg.reach(0, blocked_edges=true_edges)
-        before = all(t.bb in cfg.reach(s.bb) and s.bb not in cfg.reach(t.target) for t in ser)
-        okc = vals == [1] and dom and before
-        why = "Request.oneway is set to %s, on the oneway edge only: %s, before to_string: %s" % (vals, dom, before)
-    cx.check(okc, "C04.R2", "varlink:MethodCall::send:flag-on-wire", send.sp, why, note_ok="req.oneway = Some(true) exactly on the oneway edge, before serialisation")
-    # (d) writer handed back: on the oneway edge after the flush, Connection.writer is assigned before return
-    flushes = send.calls("=flush")
-    if not flushes: raise AnchorMissing("send(): no flush")
-    after = [(t, c) for t, c in ow_switches if t.bb in cfg.reach(flushes[-1].target)]
-    wr_assign = {s.bb for s in send.stmts() if s.kind == "assign" and "writer" in s.lhs.fields() and ("Connection" in send.ty(s.lhs.l) or "RwLockWriteGuard" in send.ty(s.lhs.l) or True) and s.lhs.l != 1}
-    self_wr = {s.bb for s in send.stmts() if s.kind == "assign" and "writer" in s.lhs.fields() and s.lhs.l == 1}
-    okd = False
-    if after:
-        t, c = after[-1]
-        te, fe = bool_edges(t, c)
-        okd = cfg.must_pass(te[2], cfg.returns(), wr_assign - self_wr) and not any(b in cfg.after(te) for b in self_wr) \
-              and cfg.must_pass(fe[2], cfg.returns(), self_wr)
-    cx.check(okd, "C04.R2", "varlink:MethodCall::send:writer-returned", send.sp,
-             "after the flush the oneway edge must put the writer back into the connection (and the normal edge must keep it in the call object)",
-             note_ok="oneway: conn.writer = Some(w); otherwise self.writer = Some(w)")
+    """client side, decided on each public entry point with send() inlined and its constant arguments propagated (see
+    client_common.entry_summary): the flags on the wire, the connection's reader, what is read, where the writer goes"""
+    from . import client_common as cc
+    cc.check_entry_table(cx, "C04.R2", "C04.R2", "varlink")
